@@ -35,8 +35,8 @@
                        detached when the old factor is read, so oldFactor = 1).
    Core.removeAssembly(a, discharge=False) = the inverse on all four structures (a purge: no spent fuel pool).
 
-   SYMMETRY FACTOR (HexBlock.getSymmetryFactor, carried literally because getVolume / getMass / getArea of the code
-   divide by it, and the statement's totals are the totals the code reports):
+   SYMMETRY FACTOR (HexBlock.getSymmetryFactor, carried literally because getVolume / getMass of the code divide by it,
+   and the statement's totals are the totals the code reports):
        third periodic:  3 at the centre cell; 2 on the 0- and 120-degree lines iff the cell <<-1, 2>> (ring 3, the
                         innermost cell of the 120-degree line) is registered in childrenByLocator; otherwise 1
        full core:       1 everywhere
@@ -105,6 +105,18 @@
              addEdgeAssemblies() clears that flag, so AddEdges (adding nothing) ; Convert leaves the centre unscaled.
      D2 (I4) centre-only core: Convert ; Restore leaves the core full and the centre multiplied by 3.
      D3 (I4) no centre assembly: Restore raises TypeError after removing the added assemblies.
+   NOT A CLAUSE OF THE STATEMENT, but seen on the way (Obs.vqv / volOk): Assembly.getVolume is the cached area of the first
+   block times the height, and addEdgeAssemblies / removeEdgeAssemblies refresh that cache only on the 0-degree line; an
+   original assembly that already sits on the 120-degree line keeps reporting its old volume when the innermost edge cell
+   <<-1, 2>> is filled or emptied (its masses follow the new factor).  Both round trips purge such assemblies, so no clause
+   is touched; their volume is simply not projected.
+
+   CONFIGURATIONS (SymmetryConversion_mc.tla)
+     _mc.cfg           all 255 loading patterns of a 3-ring third core (7 cells + the edge cell), call sequences <= 4
+     _mc_thorough.cfg  510 patterns over lines-to-ring-5 + centre + interior cells (alone / inside a 4-ring core), <= 5 calls
+     _emit*.cfg        the graphs that are walked through the real converters (10 hand-picked / 255 patterns, <= 3 calls)
+     _lit.cfg          the literal restore clause (I2), expected to be refuted
+     _trace*.cfg       batch validation of recorded histories (5-ring generated cores; the 9-ring test reactor)
 *)
 EXTENDS SymLattice, Rational, TLC, Json
 
@@ -373,26 +385,29 @@ ObsT ==
         mult   |-> IF sym = "third" THEN 3 ELSE 1,                              \* Core.powerMultiplier
         cells  |-> cs,
         asm    |-> [x \in 1..Len(cs) |->
-                      LET cc == cs[x] IN
+                      LET cc == cs[x]
+                          f  == SFk(K, sym, cc) IN
                       [o    |-> at[cc].o,
                        orig |-> at[cc].k = 0,
                        rot  |-> RotOf(at[cc].k),                                 \* orientation / 120 degrees
-                       sf   |-> SFk(K, sym, cc),
-                       vq   |-> RFrac(1, SFk(K, sym, cc)),                       \* reported mass of every nuclide / full value
+                       sf   |-> f,
+                       vq   |-> RFrac(1, f),                                     \* reported mass of every nuclide / full value
                        \* reported volume / full volume.  Assembly.getVolume is (cached area of its first block) x height; the
                        \* code refreshes that cache for the centre and the 0-degree line whenever their factor changes, but not
                        \* for an ORIGINAL assembly that already sat on the 120-degree line when the innermost edge cell is
                        \* filled or emptied.  Such assemblies are outside every clause of the statement (both round trips
                        \* purge them): their volume is not projected (<<0, 0>>), and where one is present the core's total
                        \* volume is not compared (volOk).
-                       vqv  |-> IF Line(cc) = 3 /\ at[cc].k = 0 THEN <<0, 0>> ELSE RFrac(1, SFk(K, sym, cc)),
+                       vqv  |-> IF Line(cc) = 3 /\ at[cc].k = 0 THEN <<0, 0>> ELSE RFrac(1, f),
                        ps   |-> at[cc].ps,                                       \* volume-integrated parameters / built value
                        other |-> ROne]],                                         \* every other parameter / built value
         byLoc  |-> SortedCells({cc \in All : byLoc[cc] # NoNum}),
         where  |-> [x \in 1..Len(al) |->                                         \* getAssemblyWithStringLocation over the hexagon
-                      LET hit == {cc \in Occ(K) : at[cc].num = byLoc[al[x]]} IN
-                      IF byLoc[al[x]] = NoNum \/ hit = {} THEN <<0, 0>>
-                      ELSE LET cc == CHOOSE h \in hit : TRUE IN <<at[cc].o, at[cc].k>>],
+                      LET n == byLoc[al[x]] IN
+                      IF n = NoNum THEN <<0, 0>>
+                      ELSE IF at[al[x]].num = n THEN <<at[al[x]].o, at[al[x]].k>>          \* (always, by LookupsTruthful)
+                      ELSE LET hit == {cc \in Occ(K) : at[cc].num = n} IN
+                           IF hit = {} THEN <<0, 0>> ELSE LET cc == CHOOSE h \in hit : TRUE IN <<at[cc].o, at[cc].k>>],
         nameFinds |-> SortedCells({cc \in Occ(K) : at[cc].num \in byName}),      \* getAssemblyByName(name) is the assembly
         blkFinds  |-> SortedCells({cc \in Occ(K) : at[cc].num \in byBlk}),       \* getBlockByName for each of its blocks
         staleNames |-> Cardinality(byName \ Live(K)),
